@@ -15,7 +15,10 @@ def preamble_value(ctx, maxitems):
     _PRE[maxitems] = ml[0][4:]
     return _PRE[maxitems]
 
-def gen(rng, n, kinds=("name", "fd"), comps=("none", "gzip", "xz"), big=False):
+def gen(rng, n, kinds=("name", "fd"), comps=("none", "gzip", "xz"), big=False, records=("qr", "aec", "mm")):
+    """records: which kinds of record the random scenarios buffer. Address event counts are all of ONE encoded size (4-byte address from a
+    small set, type and aggregated count below 24): the array of a block comes out in unordered_map order, so only then are the encoder's
+    flush points - the sizes of the individual write(2) calls - the same whatever that order is."""
     out = []
     fixed = [
         {"kind": "name", "comp": "none", "max": 3, "ops": [("qr", b"\x03www", 1), ("qr", b"\x03www", 2), ("wb",), ("rot", 1), ("qr", b"\x01a", 3), ("counts",)], "end": True},
@@ -30,8 +33,12 @@ def gen(rng, n, kinds=("name", "fd"), comps=("none", "gzip", "xz"), big=False):
         for _ in range(rng.choice([12, 25, 40]) if big else rng.choice([1, 3, 6, 12, 40])):
             r = rng.random()
             if r < 0.62:
+                kind = rng.choice(records)
+                if kind == "aec" and sum(1 for o in ops if o[0] == "aec") >= 10: kind = "qr"
                 ln = rng.choice([30, 120, 250, 250]) if big else rng.choice([1, 1, 3, 30, 120, 250])
-                ops.append(("qr", bytes([min(ln, 63)]) + bytes(rng.choice(b"abcxyz") for _ in range(ln)), rng.randrange(0, 70000)))
+                if kind == "qr": ops.append(("qr", bytes([min(ln, 63)]) + bytes(rng.choice(b"abcxyz") for _ in range(ln)), rng.randrange(0, 70000)))
+                elif kind == "aec": ops.append(("aec", bytes([10, 0, 0, rng.choice([1, 2, 3])]), rng.choice([0, 1, 5]), rng.choice([1, 2])))
+                else: ops.append(("mm", bytes(rng.choice(b"\x00\x01\xffmn") for _ in range(ln)), rng.randrange(0, 70000)))
             elif r < 0.76: ops.append(("wb",))
             elif r < 0.92: ops.append(("rot", rng.choice([0, 1, 1])))
             else: ops.append(("counts",))
@@ -45,6 +52,8 @@ def scripts(ctx, sc, pre=None):
     nid = 1
     for o in sc["ops"]:
         if o[0] == "qr": t = "qr %s %d" % (o[1].hex(), o[2])
+        elif o[0] == "aec": t = "aec %s %d %d" % (o[1].hex(), o[2], o[3])
+        elif o[0] == "mm": t = "mm %s %d" % (o[1].hex(), o[2])
         elif o[0] == "wb": t = "wb"
         elif o[0] == "rot": nid += 1; t = "rot %d %d" % (nid, o[1])
         else: t = "counts"
@@ -156,7 +165,7 @@ def fault_section(ctx, rng, n, prefix="f"):
     import random
     scs = []
     for i in range(n):
-        sc = gen(rng, 6, kinds=("fd",), comps=("none",), big=(i % 3 != 2))[-1]; sc["end"] = True; scs.append((i, sc, rng.getrandbits(32)))
+        sc = gen(rng, 6, kinds=("fd",), comps=("none",), big=(i % 3 != 2), records=("qr", "mm"))[-1]; sc["end"] = True; scs.append((i, sc, rng.getrandbits(32)))
     for m in sorted(set(sc["max"] for _, sc, _ in scs)): preamble_value(ctx, m)
     def ins(s, pfx):
         s = list(s); s[len(s) - 1:len(s) - 1] = [pfx + " " + e for e in ("rot 90 0", "wb", "counts")]; return s
